@@ -36,6 +36,10 @@ type prepCtx struct {
 	BuildEnv  []string
 	Extra     map[string]string
 	Notes     []string
+	// RaceBuild asks for a second engine binary built with -race; a quarter
+	// of the workers (w%4==3) then run it.
+	RaceBuild bool
+	RaceBin   string
 }
 
 type propDef struct {
@@ -66,8 +70,15 @@ func goEnv(extra ...string) []string {
 	return append(env, extra...)
 }
 
+var scratchDirs []string
+
 func die2(format string, a ...interface{}) {
 	fmt.Fprintf(os.Stderr, "vcheck: harness trouble (no verdict): "+format+"\n", a...)
+	if os.Getenv("VCHECK_KEEP") == "" {
+		for _, d := range scratchDirs {
+			os.RemoveAll(d)
+		}
+	}
 	os.Exit(2)
 }
 
@@ -103,10 +114,15 @@ func main() {
 		sort.Strings(ids)
 		fmt.Println(strings.Join(ids, " "))
 	default:
+		if f, ok := debugCmds[os.Args[1]]; ok {
+			os.Exit(f(os.Args[2:]))
+		}
 		fmt.Fprintln(os.Stderr, "unknown command")
 		os.Exit(2)
 	}
 }
+
+var debugCmds = map[string]func([]string) int{}
 
 type runArgs struct {
 	id      string
@@ -182,6 +198,17 @@ func buildEngine(p *propDef, tier string, seed uint64, scratch string) (bin stri
 	if err != nil {
 		die2("building engine %s from the working tree failed: %v\n%s", p.Engine, err, out)
 	}
+	if ctx.RaceBuild {
+		ctx.RaceBin = bin + "-race"
+		args := append([]string{"build", "-race", "-o", ctx.RaceBin}, ctx.BuildArgs...)
+		args = append(args, p.Pkg)
+		cmd := exec.Command("go", args...)
+		cmd.Dir = verifRoot
+		cmd.Env = goEnv(ctx.BuildEnv...)
+		if out, err := cmd.CombinedOutput(); err != nil {
+			die2("building -race engine %s from the working tree failed: %v\n%s", p.Engine, err, out)
+		}
+	}
 	return bin, ctx
 }
 
@@ -194,6 +221,7 @@ func mkScratch(id string) string {
 	if err != nil {
 		die2("mktemp: %v", err)
 	}
+	scratchDirs = append(scratchDirs, d)
 	return d
 }
 
@@ -230,7 +258,11 @@ func runWorkers(p *propDef, bin string, ctx *prepCtx, ra runArgs, seed uint64, o
 		wg.Add(1)
 		go func(w int) {
 			defer wg.Done()
-			cmd := exec.Command(bin, "worker",
+			wbin := bin
+			if ctx.RaceBin != "" && w%4 == 3 {
+				wbin = ctx.RaceBin
+			}
+			cmd := exec.Command(wbin, "worker",
 				"-prop", p.ID, "-seed", strconv.FormatUint(seed, 10),
 				"-worker", strconv.Itoa(w), "-nworkers", strconv.Itoa(ra.workers),
 				"-runs", strconv.Itoa(runs), "-maxsec", fmt.Sprintf("%g", maxsec),
@@ -241,12 +273,13 @@ func runWorkers(p *propDef, bin string, ctx *prepCtx, ra runArgs, seed uint64, o
 			if procs == "" {
 				procs = "2"
 			}
-			cmd.Env = append(os.Environ(), "GOMAXPROCS="+procs, "GOTRACEBACK=single")
+			cmd.Env = append(os.Environ(), "GOMAXPROCS="+procs, "GOTRACEBACK=single",
+				"GORACE=halt_on_error=0 exitcode=0 log_path="+filepath.Join(outDir, fmt.Sprintf("race-w%d", w)))
 			done := make(chan struct{})
 			go func() {
 				select {
 				case <-done:
-				case <-time.After(time.Duration((maxsec*3+300)*float64(time.Second))):
+				case <-time.After(time.Duration((maxsec*3 + 300) * float64(time.Second))):
 					cmd.Process.Kill()
 				}
 			}()
@@ -353,13 +386,29 @@ func cmdRun(args []string) int {
 		fmt.Printf("KNOWN-FINDING: property=%s %s [key=%s; %s]\n", p.ID, e.What, e.Key, obs)
 	}
 
-	// Replay each fresh violation in a fresh process before reporting it.
+	// Replay each fresh violation in a fresh process before reporting it. A
+	// VIOLATION line is printed only for a failure whose replay file
+	// reproduces the same class in a new process, with the same kind of
+	// binary that observed it. Anything else is a defect of this machinery
+	// (exit 2, no verdict) - never an alarm about /repo.
 	code := 0
 	reported := 0
 	for _, v := range fresh {
+		if v.Class == "" {
+			fmt.Fprintf(os.Stderr, "vcheck: internal error: worker reported a violation with an empty class (run=%d)\n", v.Run)
+			os.Remove(v.Replay)
+			code = 2
+			continue
+		}
+		rbin := bin
+		if v.Class == "data_race" && ctx.RaceBin != "" {
+			rbin = ctx.RaceBin
+		}
 		extra, _ := json.Marshal(ctx.Extra)
-		cmd := exec.Command(bin, "replay", "-quiet", "-extra", string(extra), v.Replay)
+		cmd := exec.Command(rbin, "replay", "-quiet", "-extra", string(extra), v.Replay)
 		cmd.Dir = ctx.Scratch
+		cmd.Env = append(os.Environ(), "GOTRACEBACK=single",
+			"GORACE=halt_on_error=0 exitcode=0 log_path="+filepath.Join(outDir, fmt.Sprintf("race-replay-%d", v.Run)))
 		out, err := cmd.CombinedOutput()
 		rc := 0
 		if ee, ok := err.(*exec.ExitError); ok {
@@ -368,11 +417,10 @@ func cmdRun(args []string) int {
 			rc = 2
 		}
 		if rc != 1 {
-			fmt.Fprintf(os.Stderr, "vcheck: violation class=%s run=%d did not reproduce in a fresh process (rc=%d): harness nondeterminism\n%s\n", v.Class, v.Run, rc, out)
-			if !v.Replayed {
-				code = 2
-				continue
-			}
+			fmt.Fprintf(os.Stderr, "vcheck: UNREPRODUCIBLE class=%s key=%s run=%d: the replay file did not reproduce it in a fresh process (rc=%d, reproduced in-process=%v). This is a harness defect (state leaking between runs, or an oracle that is not a function of the tape); no verdict.\n%s\n",
+				v.Class, v.Key, v.Run, rc, v.Replayed, out)
+			code = 2
+			continue
 		}
 		fmt.Printf("VIOLATION property=%s replay=%s\n", p.ID, v.Replay)
 		fmt.Printf("  class=%s key=%s run=%d mode=%s tape=%d (from %d, %d shrink executions)\n  %s\n",
@@ -425,27 +473,27 @@ func writeEvidence(p *propDef, ra runArgs, seed uint64, ag *aggregate, ctx *prep
 		runWall = 0.001
 	}
 	cov := map[string]interface{}{
-		"evaluations":            ag.Runs,
-		"distinct_nontrivial":    len(ag.FPs),
-		"nontrivial_runs":        ag.Nontrivial,
-		"rule":                   p.Rule,
-		"samples":                samples,
-		"exhaustive":             false,
-		"runs_per_hour":          int64(float64(ag.Runs) / runWall * 3600),
-		"simulated_steps":        ag.Steps,
-		"simulated_ticks":        ag.Ticks,
-		"faults_fired":           ag.Faults,
-		"probes":                 ag.Probes,
-		"probes_at_zero":         zero,
-		"mode_runs":              ag.ModeRuns,
-		"distinct_abstract_states": len(ag.States),
-		"components_real":        p.Real,
-		"components_stubbed":     p.Stub,
-		"workers":                ra.workers,
-		"truncated_by_time":      ag.Truncated,
-		"build_s":                buildS,
+		"evaluations":               ag.Runs,
+		"distinct_nontrivial":       len(ag.FPs),
+		"nontrivial_runs":           ag.Nontrivial,
+		"rule":                      p.Rule,
+		"samples":                   samples,
+		"exhaustive":                false,
+		"runs_per_hour":             int64(float64(ag.Runs) / runWall * 3600),
+		"simulated_steps":           ag.Steps,
+		"simulated_ticks":           ag.Ticks,
+		"faults_fired":              ag.Faults,
+		"probes":                    ag.Probes,
+		"probes_at_zero":            zero,
+		"mode_runs":                 ag.ModeRuns,
+		"distinct_abstract_states":  len(ag.States),
+		"components_real":           p.Real,
+		"components_stubbed":        p.Stub,
+		"workers":                   ra.workers,
+		"truncated_by_time":         ag.Truncated,
+		"build_s":                   buildS,
 		"known_findings_reobserved": keys(observed),
-		"notes":                  ctx.Notes,
+		"notes":                     ctx.Notes,
 	}
 	ev := map[string]interface{}{
 		"property_id": p.ID,
@@ -495,8 +543,13 @@ func cmdReplay(args []string) int {
 	bin, ctx := buildEngine(p, rf.Tier, rf.Seed, scratch)
 	extra, _ := json.Marshal(ctx.Extra)
 	abs, _ := filepath.Abs(args[0])
+	if rf.Class == "data_race" && ctx.RaceBin != "" {
+		// Only the -race build can observe it.
+		bin = ctx.RaceBin
+	}
 	cmd := exec.Command(bin, "replay", "-extra", string(extra), abs)
 	cmd.Dir = scratch
+	cmd.Env = append(os.Environ(), "GOTRACEBACK=single", "GORACE=halt_on_error=0 exitcode=0")
 	cmd.Stdout = os.Stdout
 	cmd.Stderr = os.Stderr
 	err = cmd.Run()
